@@ -94,6 +94,13 @@ type (
 	AppSvc struct{ Name string }
 )
 
+// Namer is a narrow interface that *AppSvc implements but that nobody maps directly: resolving
+// it walks the injector's implementor search, in request scope first, then at application level.
+type Namer interface{ SvcName() string }
+
+// SvcName implements Namer.
+func (s *AppSvc) SvcName() string { return s.Name }
+
 // Event kinds recorded per request.
 const (
 	EvEnter      = iota + 1 // handler started; H=hid A=pos S=token seen
@@ -196,6 +203,7 @@ const (
 	OpSeeIface     // note the Labeler visible through DI
 	OpInvoke       // c.Invoke(func(Token) ...) from inside the handler: a nested resolution in request scope
 	OpApply        // c.Apply(&struct{... `inject`}) in request scope
+	OpSeeNamer     // resolve the Namer interface (implemented only by the application service) and note it
 	OpSetCL        // announce a Content-Length the handler may never honour
 	OpExpireCtx    // install a derived context whose deadline has already passed (context.DeadlineExceeded, no timer)
 	OpMapOwnWriter // map an independent flamego.ResponseWriter (a buffering substitute) as the http.ResponseWriter service
@@ -228,6 +236,12 @@ type WFault struct {
 	Kind int // 1 short write, 2 error without bytes
 	Keep int // bytes accepted for a short write
 }
+
+// reqSink collects what is logged through a request's own logger.
+type reqSink struct{ b []byte }
+
+//go:norace
+func (s *reqSink) Write(p []byte) (int, error) { s.b = append(s.b, p...); return len(p), nil }
 
 // Labeler is an interface type mapped (sometimes) in request scope with MapTo.
 type Labeler interface{ Label() string }
@@ -268,7 +282,8 @@ type Req struct {
 	started       int64
 	AsyncCancelAt int // CIdx at which an asynchronous cancel landed; -1: none
 	rawCancel     func()
-	substituted   bool // a handler mapped its own writer as the http.ResponseWriter service
+	substituted   bool    // a handler mapped its own writer as the http.ResponseWriter service
+	logSink       reqSink // per-request log sink (set-ups with a request-scoped logger)
 	fsCalls       int
 }
 
